@@ -66,12 +66,15 @@ def main():
         except (OSError, ValueError) as e:
             R.broke("replay file unreadable", str(e))
             R.finish()
-        if not isinstance(replay, dict) or "n" not in replay:
+        if not isinstance(replay, dict) or ("n" not in replay and "ids" not in replay):
             os.environ.pop("VERIF_REPLAY", None)
             replay = None
-    want = {"mem", "p2p", "pedersen", "pedfaults", "run"}
+    share_cases, share_dist = 0, None
+    want = {"mem", "p2p", "pedersen", "pedfaults", "run", "share"}
     if replay is not None:
-        if replay.get("pedersen_faults"):
+        if replay.get("ids"):
+            want = {"share"}
+        elif replay.get("pedersen_faults"):
             want = {"pedfaults"}
         elif replay.get("full_run"):
             want = {"run"}
@@ -102,6 +105,17 @@ def main():
         return "pedersen", rc, out, os.path.join(od, "c11ped_cases.json")
 
     from concurrent.futures import ThreadPoolExecutor
+    if "share" in want:
+        # dkg/share.MsgFromShare: the published public-share list is in share-index order (cheap, direct)
+        rc, out, od = vp.go_harness("c11share")
+        if rc != 0:
+            R.broke("correspondence:harness c11share failed to run", out[-3000:])
+        else:
+            so = json.load(open(os.path.join(od, "c11share_cases.json")))
+            for v in so.get("violations") or []:
+                R.violation(v["key"], v["what"], v["replay"])
+            share_cases = so.get("cases", 0)
+            share_dist = so.get("dist")
     todo = [(c, f) for c, f in (("mem", do_mem), ("p2p", do_p2p), ("pedersen", do_ped), ("pedfaults", do_pedf), ("run", do_run)) if c in want]
     with ThreadPoolExecutor(max_workers=5) as ex:
         done = list(ex.map(lambda cf: (cf[0], cf[1]()), todo))
@@ -162,13 +176,14 @@ def main():
     for key, what, rp in found:
         R.violation(key, what, rp)
 
-    R.coverage["evaluations"] = ncer
-    R.coverage["distinct_nontrivial"] = len(distinct)
+    R.coverage["evaluations"] = ncer + share_cases
+    R.coverage["distinct_nontrivial"] = len(distinct) + share_cases
     R.coverage["rule"] = ("one evaluation = one in-process ceremony (all n nodes run concurrently): FROST through dkg.runFrostParallel over an in-memory transport, "
                           "FROST over the real frostP2P transport with controlled order and multiplicity of deliveries, Pedersen through pedersen.RunDKG (also as a second ceremony on the same hosts with a straggler message of the abandoned session), "
                           "or a full dkg.Run scenario (plain / add-validators) whose artefacts on disk are checked; "
                           "FROST over the real transport with ONE faulty participant (threshold +-1, extra / missing commitment, wrong ValIdx / SourceID / TargetID, share sent to the wrong target, shares of two validators exchanged), "
                           "Pedersen with scripted faulty dealers (1 or 2 dealers deal an undecryptable share: complaint + justification must recover) and with lost deal / response / justification bundles (lossy stream wrapper); "
+                          "plus one evaluation per direct call of dkg/share.MsgFromShare (share index map -> published list: dense index sets 1..n for every n = 1..40, sparse sets, large indices; position i-1 of the published list must hold the public share of index i); "
                           "non-trivial = the ceremony completed on all nodes (then all group-side checks and the Coq polynomial check ran on its outputs) or it ran with an injected fault (then it must fail or complete consistently); "
                           "distinct by (class, n, t, validators, delivery plan / release and completion orders)")
     ran = []
@@ -176,7 +191,7 @@ def main():
         if cls == "run":
             ran = ["%s %s n=%d t=%d vals=%d%s%s (%.0fs)" % (c.get("algo"), c.get("flow"), c["n"], c["t"], c["vals"], ("+%d" % c["add"]) if c.get("add") else "", " no-verify" if c.get("no_verify") else "", c.get("seconds", 0))
                    for c in (o.get("ceremonies") or [])]
-    R.coverage["input_distribution"] = {"ceremonies": dist, "validators_checked_in_coq": len(rows), "go_checks": checks,
+    R.coverage["input_distribution"] = {"ceremonies": dist, "share_to_published_list_cases": share_dist, "validators_checked_in_coq": len(rows), "go_checks": checks,
                                         "full_dkg_run_scenarios_this_run": ran,
                                         "full_dkg_run_note": "quick runs ONE append scenario (plain ceremony + add-validators, artefacts of both checked), rotating frost / pedersen / default by seed, plus one plain FROST ceremony with a LOW threshold (n=4 t=2 / n=5 t=3 / n=5 t=2, rotating) and NoVerify=true, and one such pedersen ceremony when the append scenario is not pedersen; thorough runs frost and pedersen plain ceremonies, two append scenarios, the lossy scenarios and all low-threshold configurations with NoVerify true and false"}
     samples = []
